@@ -150,7 +150,29 @@ func (ex *Exec) vrtCall(fn *ssa.Function, args []Value, g *Term, where string) V
 		}
 		ex.frameUnchanged(g, msg)
 		return nil
-	case "SetFrameObserver", "Reset":
+	case "FrameExempt":
+		if ex.frameExempt == nil {
+			ex.frameExempt = map[*Object]bool{}
+		}
+		var mark func(v Value)
+		mark = func(v Value) {
+			switch x := v.(type) {
+			case *IfaceVal:
+				mark(x.V)
+			case *PtrVal:
+				for _, t := range x.T {
+					if t.Obj != nil && !ex.frameExempt[t.Obj] && !t.Obj.global {
+						ex.frameExempt[t.Obj] = true
+						for _, c := range t.Obj.cells {
+							mark(c)
+						}
+					}
+				}
+			}
+		}
+		mark(args[0])
+		return nil
+	case "SetFrameObserver", "Reset", "FrameWatch":
 		return nil
 	// rationals
 	case "R":
@@ -223,6 +245,7 @@ func ratArg(t *Term) *Term {
 // frames: all heap cells that exist at FrameBegin must be unchanged at FrameUnchanged
 
 func (ex *Exec) frameBegin() {
+	ex.frameExempt = nil
 	ex.frameSnap = map[*Object][]Value{}
 	ex.frameEnts = map[*Object]int{}
 	for _, o := range ex.heap.objs {
@@ -241,6 +264,9 @@ func (ex *Exec) frameUnchanged(g *Term, msg string) {
 	var diffs []*Term
 	var what []string
 	for _, o := range ex.heap.objs[:ex.frameObjs] {
+		if ex.frameExempt[o] {
+			continue
+		}
 		old := ex.frameSnap[o]
 		for i := range o.cells {
 			if o.cells[i] == old[i] {
